@@ -366,7 +366,7 @@ def enumerated_cases(tier):
                             'elems': elems, 'inc_marker': bool(k % 2), 'suite_explicit': bool(k % 2),
                             'inc_depth': 1 + (k // 7) % 2,
                             'inc_from': None},
-                'at_eof': k % 2 == 0, 'symbol_check': k % 5 == 0}
+                'at_eof': k % 2 == 0, 'symbol_check': k % 5 == 0 or cph == 'cleanup' or elems[0]['name'] == 'def'}
         if case['at_eof'] and where == 'main' and cph in IPHASES:
             case['carrier']['pos'] = n
         eof = is_at_eof(case)
